@@ -5,6 +5,7 @@
 package walk
 
 import (
+	"fmt"
 	"encoding/binary"
 	"hash/fnv"
 	"math"
@@ -21,6 +22,8 @@ type Stats struct {
 	Maps          int64
 	Funcs         int64
 }
+
+const inProgress = ^uint64(0)
 
 type visitKey struct {
 	p uintptr
@@ -109,19 +112,27 @@ func (w *walker) hash(v reflect.Value) uint64 {
 			return mix(h, 5)
 		}
 		k := visitKey{v.Pointer(), v.Type()}
-		if _, ok := w.visited[k]; ok {
-			// constant marker: ids would depend on map iteration order
-			return mix(h, 29)
+		if done, ok := w.visited[k]; ok {
+			if done == inProgress {
+				// a cycle: constant marker
+				return mix(h, 29)
+			}
+			// memoised: the same target hashes the same wherever it is reached from,
+			// so the result does not depend on map iteration order
+			return done
 		}
 		w.st.Pointers++
-		id := uint64(len(w.visited) + 7)
-		w.visited[k] = id
+		w.visited[k] = inProgress
 		if w.collect {
 			w.addrs[v.Pointer()] = w.where()
 		}
 		w.push("*")
 		r := mix(h, w.hash(v.Elem()))
 		w.pop()
+		if r == inProgress {
+			r++
+		}
+		w.visited[k] = r
 		return r
 	case reflect.Interface:
 		if v.IsNil() {
@@ -201,4 +212,59 @@ func (w *walker) hash(v reflect.Value) uint64 {
 		return mix(h, 23)
 	}
 	return h
+}
+
+// PathHashes fingerprints every sub-tree down to maxDepth separately, keyed by
+// a readable path, so that a change can be localised.
+func PathHashes(root any, maxDepth int) map[string]uint64 {
+	out := map[string]uint64{}
+	var rec func(v reflect.Value, path string, depth int)
+	rec = func(v reflect.Value, path string, depth int) {
+		if !v.IsValid() {
+			return
+		}
+		w := &walker{visited: map[visitKey]uint64{}}
+		out[path] = w.hash(v)
+		if depth >= maxDepth {
+			return
+		}
+		switch v.Kind() {
+		case reflect.Ptr, reflect.Interface:
+			if !v.IsNil() {
+				rec(v.Elem(), path, depth)
+			}
+		case reflect.Struct:
+			for i := 0; i < v.NumField(); i++ {
+				rec(v.Field(i), path+"."+v.Type().Field(i).Name, depth+1)
+			}
+		case reflect.Slice:
+			if v.IsNil() {
+				return
+			}
+			full := v
+			if v.Cap() > v.Len() {
+				full = v.Slice(0, v.Cap())
+			}
+			for i := 0; i < full.Len() && i < 64; i++ {
+				rec(full.Index(i), fmt.Sprintf("%s[%d]", path, i), depth+1)
+			}
+		case reflect.Map:
+			it := v.MapRange()
+			for it.Next() {
+				rec(it.Value(), fmt.Sprintf("%s{%v}", path, keyString(it.Key())), depth+1)
+			}
+		}
+	}
+	rec(reflect.ValueOf(root), "", 0)
+	return out
+}
+
+func keyString(k reflect.Value) string {
+	switch k.Kind() {
+	case reflect.String:
+		return k.String()
+	case reflect.Int, reflect.Int64, reflect.Int32:
+		return fmt.Sprint(k.Int())
+	}
+	return k.Type().String()
 }
